@@ -15,7 +15,7 @@ class Contract:
                  inline=False, trusted=False, pure=False, auto=True, result_fresh=True,
                  prop_of=None, notes='', cls_targs=None, verify=True, terminates=True, unroll=None,
                  reads_only=False, this_shape=None, extra_env=None, body_assumes=(), max_paths=4000,
-                 returns_ref=None, timeout_ms=None, sig_not=None, binds=None, ghost=None, ghost_on=(), nowrap=False, post_facts=(), value=None, ensures_after=(), globals=(), custom=None, facts_on=()):
+                 returns_ref=None, timeout_ms=None, sig_not=None, binds=None, ghost=None, ghost_on=(), nowrap=False, post_facts=(), value=None, ensures_after=(), globals=(), custom=None, facts_on=(), fn_params=None, ghost_fns=None, ghost_fn_args=None, asserts_on=(), chain=False):
         self.name = name
         self.tu = tu
         self.sig = sig
@@ -55,6 +55,13 @@ class Contract:
         if value is not None:
             self.ensures.append(('value', 'result == (%s)' % value))
         self.timeout_ms = timeout_ms
+        # function-valued parameters: {param: {'args': [names], 'requires': expr, 'ensures': [(label, expr)]}} over ghost
+        # functions ghost_fns = {name: ('Int', 'Int', ..., 'Real')}; a caller names them: ghost_fn_args = {callee: {name: 'lambda a, i: ...'}}
+        self.fn_params = dict(fn_params or {})
+        self.ghost_fns = dict(ghost_fns or {})
+        self.ghost_fn_args = dict(ghost_fn_args or {})
+        self.chain = chain     # postconditions are proved in order, each one available for the next
+        self.asserts_on = list(asserts_on)   # [(trigger, [(label, expr)])]: intermediate assertions (obligations) at a call point
         self.facts_on = list(facts_on)   # [(trigger 'call:<callee>' | 'ret:<callee>', [lemma instance, ...])]
         self.custom = custom       # callable(contract) -> [(label, kind, props, ok, detail, model)] (whole-TU frame scans)
 
@@ -158,6 +165,14 @@ INSLICE = z3.Function('in_slice', z3.IntSort(), z3.IntSort(), z3.IntSort(), z3.I
 def inslice_def():
     a, m, nc, j, k = z3.Ints('a!is m!is nc!is j!is k!is')
     return z3.ForAll([a, m, nc, j], INSLICE(a, m, nc, j) == z3.Exists([k], z3.And(0 <= k, k < nc, j == a + k * m)))
+
+
+def inslice_at(a, m, nc, j):
+    """the definition of INSLICE at one position (a definitional unfolding, for strides other than +-1)"""
+    _qcount[0] += 1
+    a, m, nc, j = [getattr(t, 'z', t) for t in (a, m, nc, j)]
+    k = z3.Int('k!ia%d' % _qcount[0])
+    return INSLICE(a, m, nc, j) == z3.Exists([k], z3.And(0 <= k, k < nc, j == a + k * m))
 
 
 def inslice_base(a, m):
@@ -587,7 +602,7 @@ BASE_NS = {
     'ghost_int': _ghost_int, 'IsInt': z3.IsInt,
     'pow2': _pow2,
     'add': _arith('+'), 'sub': _arith('-'), 'mul': _arith('*'), 'div': _arith('/'), 'eqv': eqv,
-    'cx': cx, 'CDIV_DEF': cdiv_def, 'INSLICE': INSLICE, 'INSLICE_AX': inslice_ax, 'INSLICE_BASE': inslice_base, 'INSLICE_STEP': inslice_step,
+    'cx': cx, 'CDIV_DEF': cdiv_def, 'INSLICE': INSLICE, 'INSLICE_AX': inslice_ax, 'INSLICE_AT': inslice_at, 'INSLICE_BASE': inslice_base, 'INSLICE_STEP': inslice_step,
     'And': z3.And, 'Or': z3.Or, 'Not': z3.Not, 'Implies': z3.Implies, 'If': _If, 'Xor': z3.Xor,
     'forall': lambda f: _bounded('A', f), 'exists': lambda f: _bounded('E', f),
     'exists_w': _exists_w, 'when': _when,
